@@ -760,7 +760,7 @@ func (i *IRCServer) TrustedBridge(authHeader string) string {
 func (i *IRCServer) captchaConfigured() bool {
 	i.ConfigMu.RLock()
 	defer i.ConfigMu.RUnlock()
-	return i.Config.CaptchaURL != "" && i.Config.CaptchaHMACSecret != nil
+	return i.Config.CaptchaURL != "" && len(i.Config.CaptchaHMACSecret) > 0
 }
 
 func (i *IRCServer) captchaRequiredForLogin() bool {
